@@ -3,6 +3,7 @@
 -/
 import ProphyModel.Expr
 import ProphyModel.Generated.Precedence
+import ProphyModel.Lemmas.ExprPrint
 namespace Prophy.C14
 open Prophy Prophy.Expr
 
@@ -95,5 +96,27 @@ example : evalsTo [.lpar, .num 1, .plus, .num 2, .rpar, .shl, .num 2] 12 = true 
 example : evalsTo [.num 1, .plus, .num 2, .star, .num 3, .shl, .num 1] 13 = true := by decide
 /-- unary minus binds tighter than every binary operator: `-2 << 1 + 3` -/
 example : evalsTo [.minus, .num 2, .shl, .num 1, .plus, .num 3] (-1) = true := by decide
+
+
+/-- the parser's language is exactly "the tree written with the parentheses the precedence table
+    requires, plus any redundant ones" (`Rep 0`): levels 1 `+ -`, 2 `* /`, 3 `<< >>`, unary minus
+    above, left-associative; so every text denotes at most one tree -/
+theorem C14_parser_language (t : List Tok) (a : Ast) : parse t = some a ↔ Rep 0 a t := parse_iff_rep t a
+
+theorem C14_one_tree_per_text (t : List Tok) (a b : Ast) (ha : parse t = some a) (hb : parse t = some b) : a = b := by
+  rw [ha] at hb; injection hb
+
+/-- printing a tree with minimal or with full parentheses and parsing it back gives the tree:
+    grouping and redundant parentheses never change the value -/
+theorem C14_parse_print (a : Ast) : parse (toks a) = some a ∧ parse (toksFull a) = some a :=
+  ⟨parse_toks a trivial, parse_toksFull a trivial⟩
+
+theorem C14_grouping_irrelevant (env : String → Option Int) (a : Ast) :
+    evalToks env (toks a) = evalToks env (toksFull a) := eval_grouping env a trivial
+
+/-- texts with the same tokens (spacing, comments of the lexer) have the same outcome -/
+theorem C14_spacing_irrelevant (octal : Bool) (env : String → Option Int) (s₁ s₂ : String)
+    (h : tokenize octal s₁ = tokenize octal s₂) : evalText octal env s₁ = evalText octal env s₂ :=
+  evalText_spacing octal env s₁ s₂ h
 
 end Prophy.C14
